@@ -2,21 +2,101 @@
   C11 (and C07's anchor token/filetoken/filetoken.go) — the file token: `GetKey` on every kind of key file.
 
   The library parsers are abstracted (Relic.FileToken.Content says what they report); the theorems are about relic's own code around
-  them.  `file_getkey_panics_iff` characterises EXACTLY when `filetoken.GetKey` panics instead of returning an error; the four
-  cases are findings (F-FILE-1 … F-FILE-4), each confirmed on the real code by the `ftok` ops:
+  them.
 
-    1. an EMPTY key file: `blob[0] == asn1Magic` in ParseAnyPrivateKey (index out of range);
-    2. an ENCRYPTED PGP private key and no PasswordGetter (what the server passes for every token): `prompt.GetPasswd` on a nil
-       interface — the PEM branch checks `prompt == nil`, the PGP branch does not;
-    3. `ispkcs12: true` and no PasswordGetter: ParsePKCS12 starts with `prompt.GetPasswd` (even for an unencrypted bundle);
-    4. a PGP private key whose Go type is not a crypto.Signer (EdDSA with ProtonMail/go-crypto, DSA, ElGamal):
-       `privateKey.(crypto.Signer)` without the comma-ok form.
+    * `file_getkey_total` — (the code as it is, commit 3202f4d) for every key file, configuration and PasswordGetter (nil or not),
+      `filetoken.GetKey` returns a key or an error: no panic, no hang.  `file_getkey_unusable_is_error` names the four errors.
+    * `file_getkey_panics_iff_orig` — BEFORE 3202f4d it panicked EXACTLY in four cases (findings F-FILE-1 … F-FILE-4, fixed), each
+      confirmed on the unrepaired code by the `ftok` ops:
+        1. an EMPTY key file: `blob[0] == asn1Magic` in ParseAnyPrivateKey (index out of range);
+        2. an ENCRYPTED PGP private key and no PasswordGetter (what the server passes for every token): `prompt.GetPasswd` on a nil
+           interface — the PEM branch checked `prompt == nil`, the PGP branch did not;
+        3. `ispkcs12: true` and no PasswordGetter: ParsePKCS12 started with `prompt.GetPasswd` (even for an unencrypted bundle);
+        4. a PGP private key whose Go type is not a crypto.Signer (EdDSA with ProtonMail/go-crypto, DSA, ElGamal):
+           `privateKey.(crypto.Signer)` without the comma-ok form.
+    * `file_key_prompts_bounded` — the passphrase loops end with the getter (both versions).
 -/
 import Relic.Model.FileToken
 namespace Relic.Props.C11
 open Relic Relic.Assuan Relic.FileToken
 
-/-- when GetKey panics, as a decidable condition on the description of the key file and the getter -/
+def ftokConf (c : Content) (p12 : Bool := false) : KeyConf := { keyFile := true, exists_ := true, isPkcs12 := p12, content := c }
+
+/-! ### the code as it is -/
+
+/-- an outcome that is a value or an error -/
+def ftokOkOrErr {α} : Out α → Bool
+  | .ok _ => true
+  | .fail _ => true
+  | _ => false
+
+theorem parseAny_total (c : Content) (g : Getter) : ftokOkOrErr (parseAny c g).2 = true := by
+  unfold parseAny parseAnyWith
+  cases c with
+  | empty => rfl
+  | junk => rfl
+  | der p => cases p <;> rfl
+  | p12 v pw => rfl
+  | pem kb enc pw p =>
+    cases kb <;> cases enc <;> cases p <;> simp [ftokOkOrErr]
+    all_goals (cases g with
+      | none => rfl
+      | some answers => cases h : askLoop pw answers with | mk n r => cases r <;> simp [h, ftokOkOrErr])
+  | pgp rd hp2 enc pw sg =>
+    cases rd <;> cases hp2 <;> cases enc <;> simp [ftokOkOrErr]
+    all_goals (cases g with
+      | none => rfl
+      | some answers => cases h : askLoop pw answers with | mk n r => cases r <;> simp [h, ftokOkOrErr])
+
+/-- **file_getkey_total**: every outcome of `filetoken.GetKey` is a key or an error -/
+theorem file_getkey_total (k : KeyConf) (g : Getter) : ftokOkOrErr (getKey k g).2 = true := by
+  unfold getKey getKeyWith
+  cases hk : k.keyFile <;> simp [ftokOkOrErr]
+  cases he : k.exists_ <;> simp [ftokOkOrErr]
+  cases hp : k.isPkcs12 <;> simp
+  · have ht := parseAny_total k.content g
+    unfold parseAny at ht
+    generalize parseAnyWith true k.content g = x at ht ⊢
+    obtain ⟨n, o⟩ := x
+    cases o with
+    | ok s => cases s <;> simp [ftokOkOrErr]
+    | fail e => simp [ftokOkOrErr]
+    | panic s => simp [ftokOkOrErr] at ht
+    | block => simp [ftokOkOrErr] at ht
+  · cases g with
+    | none => simp [ftokOkOrErr]
+    | some answers =>
+      simp only
+      cases hc : k.content with
+      | p12 v pw =>
+        cases v <;> simp [ftokOkOrErr]
+        cases h : p12Loop pw false answers with | mk n r => cases r <;> simp [ftokOkOrErr]
+      | empty => simp [ftokOkOrErr]
+      | junk => simp [ftokOkOrErr]
+      | der p => simp [ftokOkOrErr]
+      | pem a b c d => simp [ftokOkOrErr]
+      | pgp a b c d e => simp [ftokOkOrErr]
+
+theorem file_getkey_no_panic (k : KeyConf) (g : Getter) : (getKey k g).2.isPanic = false ∧ (getKey k g).2.isBlock = false := by
+  have := file_getkey_total k g
+  cases h : (getKey k g).2 <;> simp [h, ftokOkOrErr, Out.isPanic, Out.isBlock] at this ⊢
+
+/-- **file_getkey_unusable_is_error**: the four unusable key files, each with its error; no passphrase is asked for in any of them -/
+theorem file_getkey_unusable_is_error (g : Getter) (pw : Bytes) (signer : Bool) (c : Content) :
+    getKey (ftokConf .empty) g = (0, .fail (.msg "format")) ∧
+    getKey (ftokConf (.pgp true true true pw signer)) none = (0, .fail (.msg "noprompt")) ∧
+    getKey (ftokConf c true) none = (0, .fail (.msg "p12noprompt")) ∧
+    getKey (ftokConf (.pgp true true false [] false)) g = (0, .fail (.msg "notsigner")) := by
+  refine ⟨?_, rfl, rfl, ?_⟩ <;> cases g <;> rfl
+/-- the neighbouring cases still work: the encrypted PGP key with a getter, the PEM branch's own check -/
+example : (getKey (ftokConf (.pgp true true true (ascii "secret") true)) (some [ascii "wrong", ascii "secret"])) = (2, .ok ()) := by decide +kernel
+example : (getKey (ftokConf (.pem true true (ascii "secret") true)) none).2 = .fail (.msg "noprompt") := rfl
+/-- a non-Signer key behind a passphrase: asked once, then the error -/
+example : (getKey (ftokConf (.pgp true true true (ascii "secret") false)) (some [ascii "secret"])) = (1, .fail (.msg "notsigner")) := by decide +kernel
+
+/-! ### the code before 3202f4d -/
+
+/-- when the original GetKey panicked, as a decidable condition on the description of the key file and the getter -/
 def ftokPanics (k : KeyConf) (g : Getter) : Bool :=
   k.keyFile && k.exists_ &&
   (if k.isPkcs12 then g.isNone else
@@ -29,25 +109,25 @@ def ftokPanics (k : KeyConf) (g : Getter) : Bool :=
      | some answers => (askLoop password answers).2 && !signer
    | _ => false)
 
-/-- **file_getkey_panics_iff** -/
-theorem file_getkey_panics_iff (k : KeyConf) (g : Getter) : (getKey k g).2.isPanic = ftokPanics k g := by
-  unfold getKey ftokPanics
+/-- **file_getkey_panics_iff_orig** -/
+theorem file_getkey_panics_iff_orig (k : KeyConf) (g : Getter) : (getKeyOrig k g).2.isPanic = ftokPanics k g := by
+  unfold getKeyOrig getKeyWith ftokPanics
   cases hk : k.keyFile <;> simp [Out.isPanic]
   cases he : k.exists_ <;> simp [Out.isPanic]
   cases hp : k.isPkcs12 <;> simp
   · -- not PKCS#12
     cases hc : k.content with
-    | empty => simp [parseAny, Out.isPanic]
-    | junk => simp [parseAny, Out.isPanic]
-    | der p => cases p <;> simp [parseAny, Out.isPanic]
-    | p12 v pw => simp [parseAny, Out.isPanic]
+    | empty => simp [parseAnyWith, Out.isPanic]
+    | junk => simp [parseAnyWith, Out.isPanic]
+    | der p => cases p <;> simp [parseAnyWith, Out.isPanic]
+    | p12 v pw => simp [parseAnyWith, Out.isPanic]
     | pem kb enc pw p =>
-      cases kb <;> cases enc <;> cases p <;> simp [parseAny, Out.isPanic]
+      cases kb <;> cases enc <;> cases p <;> simp [parseAnyWith, Out.isPanic]
       all_goals (cases g with
         | none => simp [Out.isPanic]
         | some answers => cases h : askLoop pw answers with | mk n r => cases r <;> simp [h, Out.isPanic])
     | pgp rd hp2 enc pw sg =>
-      cases rd <;> cases hp2 <;> cases enc <;> cases sg <;> simp [parseAny, Out.isPanic]
+      cases rd <;> cases hp2 <;> cases enc <;> cases sg <;> simp [parseAnyWith, Out.isPanic]
       all_goals (cases g with
         | none => simp [Out.isPanic]
         | some answers => cases h : askLoop pw answers with | mk n r => cases r <;> simp [h, Out.isPanic])
@@ -66,52 +146,86 @@ theorem file_getkey_panics_iff (k : KeyConf) (g : Getter) : (getKey k g).2.isPan
       | pem a b c d => simp [Out.isPanic]
       | pgp a b c d e => simp [Out.isPanic]
 
-/-- the full statement: GetKey returns a key or an error for every key file -/
-def file_getkey_total_full : Prop := ∀ (k : KeyConf) (g : Getter), (getKey k g).2.isPanic = false
-
-def ftokConf (c : Content) (p12 : Bool := false) : KeyConf := { keyFile := true, exists_ := true, isPkcs12 := p12, content := c }
+/-- the statement for the code BEFORE 3202f4d -/
+def file_getkey_total_orig_full : Prop := ∀ (k : KeyConf) (g : Getter), (getKeyOrig k g).2.isPanic = false
 
 /-- F-FILE-1: the empty key file -/
-theorem file_empty_keyfile_panics (g : Getter) : (getKey (ftokConf .empty) g).2 = .panic "certloader.ParseAnyPrivateKey:blob[0]" := by
+theorem file_empty_keyfile_panics_orig (g : Getter) : (getKeyOrig (ftokConf .empty) g).2 = .panic "certloader.ParseAnyPrivateKey:blob[0]" := by
   cases g <;> rfl
-/-- F-FILE-2: an encrypted PGP key without a PasswordGetter (the server's case); the same key with a getter is fine -/
-theorem file_encrypted_pgp_nil_prompt_panics (pw : Bytes) (signer : Bool) :
-    (getKey (ftokConf (.pgp true true true pw signer)) none).2 = .panic "certloader.parsePgpPrivateKey:prompt.GetPasswd (nil prompt)" := rfl
-example : (getKey (ftokConf (.pgp true true true (ascii "secret") true)) (some [ascii "wrong", ascii "secret"])) = (2, .ok ()) := by decide +kernel
-/-- … whereas the PEM branch has the check -/
-example : (getKey (ftokConf (.pem true true (ascii "secret") true)) none).2 = .fail (.msg "noprompt") := rfl
+/-- F-FILE-2: an encrypted PGP key without a PasswordGetter (the server's case) -/
+theorem file_encrypted_pgp_nil_prompt_panics_orig (pw : Bytes) (signer : Bool) :
+    (getKeyOrig (ftokConf (.pgp true true true pw signer)) none).2 = .panic "certloader.parsePgpPrivateKey:prompt.GetPasswd (nil prompt)" := rfl
 /-- F-FILE-3: PKCS#12 without a PasswordGetter -/
-theorem file_pkcs12_nil_prompt_panics (c : Content) :
-    (getKey (ftokConf c true) none).2 = .panic "certloader.ParsePKCS12:prompt.GetPasswd (nil prompt)" := rfl
+theorem file_pkcs12_nil_prompt_panics_orig (c : Content) :
+    (getKeyOrig (ftokConf c true) none).2 = .panic "certloader.ParsePKCS12:prompt.GetPasswd (nil prompt)" := rfl
 /-- F-FILE-4: a PGP key that is not a crypto.Signer -/
-theorem file_non_signer_key_panics (g : Getter) :
-    (getKey (ftokConf (.pgp true true false [] false)) g).2 = .panic "filetoken.GetKey:privateKey.(crypto.Signer)" := by cases g <;> rfl
+theorem file_non_signer_key_panics_orig (g : Getter) :
+    (getKeyOrig (ftokConf (.pgp true true false [] false)) g).2 = .panic "filetoken.GetKey:privateKey.(crypto.Signer)" := by cases g <;> rfl
 
-theorem file_getkey_total_full_false : ¬ file_getkey_total_full := by
+theorem file_getkey_total_orig_full_false : ¬ file_getkey_total_orig_full := by
   intro h
   have := h (ftokConf .empty) none
-  rw [file_empty_keyfile_panics] at this
+  rw [file_empty_keyfile_panics_orig] at this
   simp [Out.isPanic] at this
 
-/-- what holds: a non-empty key file, with a PasswordGetter, whose PGP key (if it is one) is a crypto.Signer: a key or an error -/
-theorem file_getkey_total_partial (k : KeyConf) (answers : List Bytes) (hne : k.content ≠ .empty)
-    (hs : ∀ a b c d, k.content ≠ .pgp a b c d false) : (getKey k (some answers)).2.isPanic = false := by
-  rw [file_getkey_panics_iff]
-  unfold ftokPanics
-  cases hk : k.keyFile <;> cases he : k.exists_ <;> cases hp : k.isPkcs12 <;> simp
-  cases hc : k.content with
-  | empty => exact absurd hc hne
-  | pgp a b c d e =>
-    cases e with
-    | false => exact absurd hc (hs a b c d)
-    | true => cases a <;> cases b <;> cases c <;> simp
-  | junk => simp
-  | der p => simp
-  | pem a b c d => simp
-  | p12 a b => simp
+/-- the two versions differ ONLY where the original panicked -/
+theorem file_getkey_fix_conservative (k : KeyConf) (g : Getter) (h : ftokPanics k g = false) : getKey k g = getKeyOrig k g := by
+  unfold getKey getKeyOrig getKeyWith
+  unfold ftokPanics at h
+  cases hk : k.keyFile
+  · simp
+  cases he : k.exists_
+  · simp
+  cases hp : k.isPkcs12
+  · simp only [hk, he, hp, Bool.and_self, Bool.true_and, Bool.false_eq_true, if_false] at h
+    simp only [Bool.not_true, Bool.false_eq_true, if_false]
+    cases hc : k.content with
+    | empty => simp [hc] at h
+    | junk => rfl
+    | der p => cases p <;> rfl
+    | p12 v pw => rfl
+    | pem kb enc pw p =>
+      cases kb
+      · rfl
+      cases enc
+      · cases p <;> rfl
+      cases g with
+      | none => rfl
+      | some answers =>
+        simp only [parseAnyWith, Bool.not_true, Bool.false_eq_true, if_false]
+        cases ha : askLoop pw answers with
+        | mk n r =>
+          cases r
+          · rfl
+          · cases p <;> rfl
+    | pgp rd hp2 enc pw sg =>
+      rw [hc] at h
+      cases rd
+      · rfl
+      cases hp2
+      · rfl
+      cases enc
+      · cases sg
+        · simp at h
+        · rfl
+      · cases g with
+        | none => simp at h
+        | some answers =>
+          simp only [parseAnyWith, Bool.not_true, Bool.false_eq_true, if_false]
+          cases ha : askLoop pw answers with
+          | mk n r =>
+            cases r
+            · rfl
+            · cases sg
+              · simp [ha] at h
+              · rfl
+  · simp only [hk, he, hp, Bool.and_self, Bool.true_and, if_true] at h
+    cases g with
+    | none => simp at h
+    | some answers => rfl
 
-/-- the passphrase loops end with the getter: at most one GetPasswd per answer supplied, plus the one that returns "" (PKCS#12:
-    plus the second "") -/
+/-! ### the passphrase loops end with the getter (both versions) -/
+
 theorem askLoop_bounded (pw : Bytes) : ∀ (answers : List Bytes), (askLoop pw answers).1 ≤ answers.length + 1
   | [] => by simp [askLoop]
   | a :: rest => by
@@ -148,32 +262,33 @@ theorem p12Loop_bounded (pw : Bytes) : ∀ (answers : List Bytes) (t : Bool), (p
         simp only [h1, h2, Bool.false_eq_true, if_false, List.length_cons]
         omega
 
-theorem parseAny_prompts_bounded (c : Content) (answers : List Bytes) : (parseAny c (some answers)).1 ≤ answers.length + 1 := by
+theorem parseAny_prompts_bounded (fx : Bool) (c : Content) (answers : List Bytes) : (parseAnyWith fx c (some answers)).1 ≤ answers.length + 1 := by
   cases c with
-  | empty => simp [parseAny]
-  | junk => simp [parseAny]
-  | der p => simp [parseAny]
-  | p12 v pw => simp [parseAny]
+  | empty => cases fx <;> simp [parseAnyWith]
+  | junk => simp [parseAnyWith]
+  | der p => simp [parseAnyWith]
+  | p12 v pw => simp [parseAnyWith]
   | pem kb enc pw p =>
     have hb := askLoop_bounded pw answers
-    cases kb <;> cases enc <;> simp [parseAny]
+    cases kb <;> cases enc <;> simp [parseAnyWith]
     generalize askLoop pw answers = x at hb ⊢
     obtain ⟨n, r⟩ := x
     cases r <;> simp at hb ⊢ <;> omega
   | pgp rd hp2 enc pw sg =>
     have hb := askLoop_bounded pw answers
-    cases rd <;> cases hp2 <;> cases enc <;> simp [parseAny]
+    cases rd <;> cases hp2 <;> cases enc <;> simp [parseAnyWith]
     generalize askLoop pw answers = x at hb ⊢
     obtain ⟨n, r⟩ := x
     cases r <;> simp at hb ⊢ <;> omega
 
-theorem file_key_prompts_bounded (k : KeyConf) (answers : List Bytes) : (getKey k (some answers)).1 ≤ answers.length + 2 := by
-  unfold getKey
+/-- **file_key_prompts_bounded**: at most one GetPasswd per answer supplied, plus the one that returns "" (PKCS#12: plus the second "") -/
+theorem file_key_prompts_bounded (fx : Bool) (k : KeyConf) (answers : List Bytes) : (getKeyWith fx k (some answers)).1 ≤ answers.length + 2 := by
+  unfold getKeyWith
   cases hk : k.keyFile <;> simp
   cases he : k.exists_ <;> simp
   cases hp : k.isPkcs12 <;> simp
-  · have hb := parseAny_prompts_bounded k.content answers
-    generalize parseAny k.content (some answers) = x at hb ⊢
+  · have hb := parseAny_prompts_bounded fx k.content answers
+    generalize parseAnyWith fx k.content (some answers) = x at hb ⊢
     obtain ⟨n, o⟩ := x
     cases o <;> simp at hb ⊢ <;> omega
   · cases hc : k.content with
@@ -188,5 +303,20 @@ theorem file_key_prompts_bounded (k : KeyConf) (answers : List Bytes) : (getKey 
     | der p => simp
     | pem a b c d => simp
     | pgp a b c d e => simp
+
+/-- without a getter nothing is ever asked -/
+theorem file_no_getter_no_prompt (fx : Bool) (k : KeyConf) : (getKeyWith fx k none).1 = 0 := by
+  unfold getKeyWith
+  cases hk : k.keyFile <;> simp
+  cases he : k.exists_ <;> simp
+  cases hp : k.isPkcs12 <;> simp
+  · cases hc : k.content with
+    | empty => cases fx <;> simp [parseAnyWith]
+    | junk => simp [parseAnyWith]
+    | der p => cases p <;> simp [parseAnyWith]
+    | p12 v pw => simp [parseAnyWith]
+    | pem kb enc pw p => cases kb <;> cases enc <;> cases p <;> simp [parseAnyWith]
+    | pgp rd hp2 enc pw sg => cases rd <;> cases hp2 <;> cases enc <;> cases sg <;> cases fx <;> simp [parseAnyWith]
+  · cases fx <;> simp
 
 end Relic.Props.C11
